@@ -13,7 +13,7 @@ PROP_OF = [  # (regex on commit subject, property)
     (r"Evaluator\.close\(\)|own copy of a submitted configuration", "C01"), (r"gather_other_jobs_done collects", "C14"),
     (r"aggregators keep the array namespace|entropy of MixedCategoricalAggregator", "C19"), (r"search\(\) returns None when this search wrote no results", "C04"), (r"MedianStopper keeps the best", "C16"), (r"queued evaluators", "C17"), (r"utopia point", "C05"),
     (r"MixedNormalAggregator|MeanAggregator|ModeAggregator", "C19"), (r"GreedySelector", "C20"),
-    (r"strict max_evals offset|cap on submitted jobs", "C03"), (r"evaluator timeout", "C03/C14"),
+    (r"strict max_evals offset|cap on submitted jobs|state of the dumping per results file", "C03"), (r"evaluator timeout", "C03/C14"),
     (r"number of objectives from the first non-failed|non-finite value to a failure", "C04/C06"),
     (r"impute failures per objective", "C06"),
     (r"Pareto rewrite of results\.csv keeps the CSV dialect", "C04"),
